@@ -231,7 +231,8 @@ func checkEventCase(rt fataler, rec *evid.Rec, c *resgen.EventCase) {
 	}
 	rec.Case(nontrivial, c.Prog.Key())
 	rec.Class("events-accepted")
-	if nontrivial && rec.WantSample("emit") {
-		rec.Sample("emit", map[string]any{"contract": c.Prog.Steps[0].Source, "tx": c.Prog.Steps[2].Source})
+	label := fmt.Sprintf("emit-%d-events", len(c.Expect))
+	if nontrivial && rec.WantSample(label) {
+		rec.Sample(label, map[string]any{"contract": c.Prog.Steps[0].Source, "tx": c.Prog.Steps[2].Source})
 	}
 }
